@@ -273,6 +273,241 @@ def desugar_with(tree):
     return {name for name in used if name not in left}
 
 
+# --------------------------------------------------------------------- N1b
+"""N1b  `with recv.m(args) [as v]: BODY` (or `with f(args) ...`), where m / f
+is a generator function decorated with contextlib.contextmanager defined
+anywhere in the shipped sources, is rewritten to what the statement means:
+
+    PRE; [v = <yielded value>]
+    try: BODY / except BaseException: raise / else*: POST   yield at top level
+    PRE; try: BODY  finally: FIN;  POST               yield inside try/finally
+
+A bare `yield` that is not protected by try/finally does NOT run POST when
+BODY raises (the exception is thrown into the generator at the yield); it
+does run POST when BODY completes or is left by return / break / continue
+(else*: an else clause marked `_dt_else_on_exit`, which flow.Interp runs on
+every non-raising exit).  The push/pop balance and scoping rules therefore
+judge such a helper by what it really guarantees.  Shapes that cannot be expressed this
+way (yield under except handlers, several yields, loops around the yield)
+are left alone.
+"""
+
+
+def _is_cm_decorator(d):
+    if isinstance(d, ast.Call):
+        d = d.func
+    return (isinstance(d, ast.Name) and d.id == 'contextmanager') or (
+        isinstance(d, ast.Attribute) and d.attr == 'contextmanager')
+
+
+def collect_cm_generators(trees):
+    """name -> description of the contextmanager generator functions of all
+    modules (unique names only)."""
+    found = {}
+    for tree in trees:
+        for n in ast.walk(tree):
+            if isinstance(n, ast.FunctionDef) and any(
+                    _is_cm_decorator(d) for d in n.decorator_list):
+                found.setdefault(n.name, []).append(n)
+    out = {}
+    for name, defs in found.items():
+        if len(defs) != 1:
+            continue
+        d = _cm_shape(defs[0])
+        if d is not None:
+            out[name] = d
+    return out
+
+
+def _strip_doc(body):
+    return [s for s in body if not (isinstance(s, ast.Expr) and
+                                    isinstance(s.value, ast.Constant))]
+
+
+def _cm_shape(fn):
+    a = fn.args
+    if a.vararg or a.kwarg or a.kwonlyargs or a.posonlyargs:
+        return None
+    body = _strip_doc(fn.body)
+    yields = [x for s in body for x in ast.walk(s)
+              if isinstance(x, (ast.Yield, ast.YieldFrom))]
+    if len(yields) != 1 or not isinstance(yields[0], ast.Yield):
+        return None
+    if any(isinstance(x, ast.Return) for s in body for x in ast.walk(s)):
+        return None
+
+    def is_yield_stmt(s):
+        return isinstance(s, ast.Expr) and s.value is yields[0]
+    for i, s in enumerate(body):
+        if is_yield_stmt(s):
+            return dict(fn=fn, pre=body[:i], fin=None, post=body[i + 1:],
+                        value=yields[0].value)
+        if isinstance(s, ast.Try) and not s.handlers and not s.orelse \
+                and len(s.body) >= 1 and is_yield_stmt(s.body[-1]) and \
+                any(x is yields[0] for x in ast.walk(s)):
+            # statements before the yield inside the try are protected by
+            # the finally as well: keep them inside the rewritten try
+            return dict(fn=fn, pre=body[:i], try_pre=s.body[:-1],
+                        fin=s.finalbody, post=body[i + 1:],
+                        value=yields[0].value)
+        if any(x is yields[0] for x in ast.walk(s)):
+            return None
+    return None
+
+
+class _RenameNames(ast.NodeTransformer):
+    def __init__(self, mapping):
+        self.mapping = mapping
+
+    def visit_Name(self, node):
+        if node.id in self.mapping:
+            return copy.deepcopy(self.mapping[node.id]) \
+                if isinstance(node.ctx, ast.Load) or isinstance(
+                    self.mapping[node.id], ast.Name) else node
+        return node
+
+
+def desugar_cm_generators(tree, gens):
+    """Rewrite `with` statements over the generators in `gens` in place.
+    -> set of generator names used (and rewritten) in this module."""
+    if not gens:
+        return set()
+    used = set()
+    counter = [0]
+
+    def rewrite(w):
+        if len(w.items) != 1:
+            return None
+        it = w.items[0]
+        c = it.context_expr
+        if not isinstance(c, ast.Call):
+            return None
+        f = c.func
+        if isinstance(f, ast.Name) and f.id in gens:
+            g, recv = gens[f.id], None
+        elif isinstance(f, ast.Attribute) and f.attr in gens:
+            g, recv = gens[f.attr], f.value
+        else:
+            return None
+        fn = g['fn']
+        params = [a.arg for a in fn.args.args]
+        if any(isinstance(a, ast.Starred) for a in c.args) or \
+                any(kw.arg is None for kw in c.keywords):
+            return None
+        actual = {}
+        if recv is not None:
+            if not params:
+                return None
+            if not isinstance(recv, (ast.Name, ast.Attribute)):
+                return None
+            actual[params[0]] = recv
+            params = params[1:]
+        for p_, a in zip(params, c.args):
+            actual[p_] = a
+        for kw in c.keywords:
+            actual[kw.arg] = kw.value
+        ds = fn.args.defaults
+        allp = [a.arg for a in fn.args.args]
+        for p_, d in zip(allp[len(allp) - len(ds):], ds):
+            actual.setdefault(p_, d)
+        if any(p_ not in actual for p_ in params):
+            return None
+        counter[0] += 1
+        tag = f'_dt_cg{counter[0]}_'
+        pre_assign = []
+        mapping = {}
+        for p_, a in actual.items():
+            if isinstance(a, (ast.Name, ast.Constant)) or (
+                    isinstance(a, ast.Attribute) and
+                    isinstance(a.value, ast.Name)):
+                mapping[p_] = a
+            else:
+                tmp = tag + p_
+                pre_assign.append(ast.Assign(
+                    targets=[ast.Name(id=tmp, ctx=ast.Store())],
+                    value=copy.deepcopy(a)))
+                mapping[p_] = ast.Name(id=tmp, ctx=ast.Load())
+        # locals of the generator are renamed apart
+        locs = {x.id for s in fn.body for x in ast.walk(s)
+                if isinstance(x, ast.Name) and isinstance(x.ctx, ast.Store)}
+        for nm in locs:
+            if nm not in mapping:
+                mapping[nm] = ast.Name(id=tag + nm, ctx=ast.Load())
+        ren = _RenameNames(mapping)
+
+        def inst(stmts):
+            return [ren.visit(copy.deepcopy(s)) for s in (stmts or [])]
+        pre, post = inst(g['pre']), inst(g['post'])
+        bind = []
+        if it.optional_vars is not None:
+            if g['value'] is None:
+                val = ast.Constant(value=None)
+            else:
+                val = ren.visit(copy.deepcopy(g['value']))
+            bind = [ast.Assign(targets=[copy.deepcopy(it.optional_vars)],
+                               value=val)]
+        if g['fin'] is None and not post:
+            new = pre_assign + pre + bind + list(w.body)
+        elif g['fin'] is None:
+            # POST runs when BODY completes or is left by return / break /
+            # continue (__exit__ resumes the generator), not when it raises
+            # (the exception is thrown in at the unprotected yield):
+            #     try: BODY / except BaseException: raise / else: POST
+            # with the else clause marked as running on every non-raising
+            # exit (flow.Interp honours the mark)
+            t = ast.Try(body=bind + list(w.body), handlers=[
+                ast.ExceptHandler(type=ast.Name(id='BaseException',
+                                                ctx=ast.Load()),
+                                  name=None, body=[ast.Raise(exc=None,
+                                                             cause=None)])],
+                orelse=post, finalbody=[])
+            t._dt_else_on_exit = True
+            new = pre_assign + pre + [t]
+            bind = []
+        else:
+            new = pre_assign + pre + [ast.Try(
+                body=inst(g.get('try_pre')) + bind + list(w.body),
+                handlers=[], orelse=[],
+                finalbody=inst(g['fin']) or [ast.Pass()])] + post
+        generated = [n for n in new if not any(n is b for b in w.body)]
+        _relocate([n for n in generated if not isinstance(n, ast.Try)], w)
+        for n in generated:
+            if isinstance(n, ast.Try):
+                _relocate(n.finalbody, w)
+                _relocate(n.orelse, w)
+                _relocate(n.handlers, w)
+                _relocate([b for b in n.body
+                           if not any(b is x for x in w.body)], w)
+            ast.copy_location(n, w)
+        used.add(fn.name)
+        return new
+
+    def walk_lists(node):
+        for fld in ('body', 'orelse', 'finalbody'):
+            lst = getattr(node, fld, None)
+            if not isinstance(lst, list):
+                continue
+            i = 0
+            while i < len(lst):
+                st = lst[i]
+                if isinstance(st, ast.With):
+                    new = rewrite(st)
+                    if new is not None:
+                        lst[i:i + 1] = new
+                        continue
+                if isinstance(st, ast.AST):
+                    walk_lists(st)
+                i += 1
+        for h in getattr(node, 'handlers', []) or []:
+            walk_lists(h)
+        for c in getattr(node, 'cases', []) or []:
+            walk_lists(c)
+
+    walk_lists(tree)
+    ast.fix_missing_locations(tree)
+    return used
+
+
 # ---------------------------------------------------------------------- N2
 """N2  Calls of helper functions that do not exist in the reference tree
 (dtverif/inventory.json: the functions of the pinned source) are inlined
